@@ -137,6 +137,7 @@ func safely(f func() error) (err error, panicked bool) {
 // ValidateBasic, then the handler on a cached context that is written back only on success.
 // simulateFirst: every message is first executed on a discarded branch (flag -sim)
 var simulateFirst bool
+var simCount int
 
 func (e *Env) tx(vb func() error, h func(ctx sdk.Context) error) Result {
 	if vb != nil {
@@ -151,6 +152,16 @@ func (e *Env) tx(vb func() error, h func(ctx sdk.Context) error) Result {
 		sctx, _ := e.ctx.CacheContext()
 		nx0, nt0, no0 := len(e.xfers), len(e.trace), len(e.order)
 		_, _ = safely(func() error { return h(sctx) })
+		simCount++
+		if simCount%3 == 0 {
+			// and now and then a parameter change that is only ever simulated (a transaction that passes CheckTx
+			// but is never included): fees and period as no generated history sets them
+			_, _ = safely(func() error {
+				_, err := e.ms.UpdateParams(sctx, &types.MsgUpdateParams{Authority: e.whoStr("gov"), Params: types.Params{
+					AuctionCreationFee: sdk.NewCoins(sdk.NewCoin(Denoms[4], math.NewInt(777777))), PlaceBidFee: sdk.NewCoins(sdk.NewCoin(Denoms[3], math.NewInt(55555))), ExtendedPeriod: 2}})
+				return err
+			})
+		}
 		e.xfers, e.trace, e.order = e.xfers[:nx0], e.trace[:nt0], e.order[:no0]
 	}
 	cctx, write := e.ctx.CacheContext()
